@@ -222,3 +222,92 @@ def directed_histories(rng):
                     'replace_self,1,0,M=' + ('copy' if not v else 'masg:' + hx(v + v)), 'masg,0,0', 'del,0', 'del,1'])
         out.append(['new,0,' + hx(v), 'copy,1,0,M=copy', 'mctor,2,0', 'set,0,71', 'reads,1', 'masg,1,2', 'reads,0', 'del,2', 'del,1', 'del,0'])
     return out
+
+
+# ---------------------------------------------------------------- failing operations (C18)
+BAD_UTF8 = [b'\x80', b'abc\xc3', b'\xe2\x82', b'xy\xff', b'\xf0\x9f\x98', b'ok\xc0\x20tail', b'\xf8\x88\x80\x80\x80',
+            b'a' * 20 + b'\xbf', b'\xed\xa0' + b'z' * 30]
+BAD_U16 = ['d800', '0041dc00', 'd83d0041', '00410042d800', 'dc00' + '0061' * 20]
+BAD_U32 = ['00110000', '0000004100110000', 'ffffffff', '7fffffff' + '00000061' * 20]
+BAD_HEX = [b'abc', b'zz', b'0g', b'12345', b'00' * 20 + b'x0', b'4', b'\x80\x80']
+BAD_B64 = [b'abc', b'A===', b'====', b'QUJD!AAA', b'AA=A', b'\xff\xff\xff\xff', b'QUJD' * 8 + b'A', b'QQ=QQQ==']
+FMT_FAIL = [('unterminated', 'bad_format'), ('badchar', 'bad_format'), ('missing', 'out_of_range'),
+            ('index', 'out_of_range'), ('noarg', 'out_of_range'), ('badutf8', 'unicode_error')]
+
+
+def failing_op(pool):
+    """append one throwing operation to pool.ops; nothing in pool.val changes (that is the property)"""
+    rng = pool.rng
+    live = sorted(pool.val)
+    known = pool.known()
+    o = rng.choice(live)
+    kind = rng.choice(['setfail', 'setfail', 'setcfail', 'ctorfail', 'appfail', 'plusfail', 'set16fail', 'set32fail',
+                       'from16fail', 'hexfail', 'b64fail', 'fmtfail', 'latin1fail'])
+    if kind in ('setfail', 'setcfail', 'ctorfail'):
+        b = rng.choice(BAD_UTF8)
+        if kind == 'setcfail':
+            b = b.replace(b'\x00', b'')
+        pool.ops.append('%s,%d,%s,M=throw:unicode_error:%s' % (kind, o, hx(b), hx(b)))
+    elif kind in ('appfail', 'plusfail'):
+        if not known:
+            return
+        o = rng.choice(known)
+        cp = rng.choice([0x110000, 0x7FFFFFFF, 0xFFFFFFFF, 0x200000])
+        pool.ops.append('%s,%d,%d,M=throw:unicode_error:%s' % (kind, o, cp, hx(pool.val[o] + b'\0\0\0')))
+    elif kind in ('set16fail', 'from16fail'):
+        u = rng.choice(BAD_U16)
+        pool.ops.append('%s,%d,%s,M=throw:unicode_error:%s' % (kind, o, u, hx(b'\0' * (3 * (len(u) // 4)))))
+    elif kind == 'set32fail':
+        u = rng.choice(BAD_U32)
+        pool.ops.append('%s,%d,%s,M=throw:unicode_error:%s' % (kind, o, u, hx(b'\0' * (3 * (len(u) // 8)))))
+    elif kind == 'hexfail':
+        b = rng.choice(BAD_HEX)
+        temps = hx(b) + ('' if len(b) % 2 else '/' + hx(b'\0' * (len(b) // 2)))
+        pool.ops.append('hexfail,%d,%s,M=throw:codec_error:%s' % (o, hx(b), temps))
+    elif kind == 'b64fail':
+        b = rng.choice(BAD_B64)
+        pool.ops.append('b64fail,%d,%s,M=throw:codec_error:%s' % (o, hx(b), hx(b)))
+    elif kind == 'fmtfail':
+        k, e = rng.choice(FMT_FAIL)
+        if k != 'noarg' and not known:
+            return
+        if k != 'noarg':
+            o = rng.choice(known)
+        pool.ops.append('fmtfail,%d,%s,M=throw:%s:' % (o, k, e))
+    elif kind == 'latin1fail':
+        # needs a string holding a character >= U+0100
+        dead = pool.dead()
+        if not dead:
+            return
+        d = dead[0]
+        v = rng.choice([b'\xc4\x80', b'abc\xe2\x82\xac', b'x' * 20 + b'\xf0\x9f\x98\x80'])
+        pool.new(d, v)
+        pool.ops.append('latin1fail,%d,M=throw:unicode_error:%s' % (d, hx(b'\0' * len(v))))
+
+
+def failing_history(rng, nops=10, pool=4):
+    p = Pool(rng, pool)
+    for _ in range(nops):
+        if p.val and rng.random() < 0.4:
+            failing_op(p)
+        else:
+            p.step()
+    return p.finish()
+
+
+def directed_failing(rng):
+    """every failing operation against a target of every size class, followed by normal use of the target"""
+    out = []
+    for n in SIZES:
+        for reps in range(3):
+            p = Pool(rng, 4)
+            p.new(0, rstr(rng, n))
+            p.new(1, rstr(rng, 25))
+            for _ in range(6):
+                failing_op(p)
+            cat = p.val[0] + p.val[1] if p.val.get(0) is not None else None
+            if cat is not None:
+                p.ops.append('append,0,1,M=cat:%s' % hx(cat))
+                p.val[0] = cat
+            out.append(p.finish())
+    return out
